@@ -41,6 +41,8 @@ class FnSpec:
         self.nth = kw.pop('nth', None)
         self.n4 = kw.pop('n4', True)
         self.safety_props = kw.pop('safety_props', None)
+        self.group = kw.pop('group', None)
+        self.optional = kw.pop('optional', False)     # item may be absent (e.g. an override of a trait default); then nothing to check             # emit inside the named group block (see Unit.groups)
         if kw:
             raise TypeError('unknown FnSpec args %s' % list(kw))
         self.kind = 'fn'
@@ -60,8 +62,10 @@ class StructSpec:
 
 
 class Unit:
-    def __init__(self, name, prelude, spec, global_rules=None, files=None):
+    def __init__(self, name, prelude, spec, global_rules=None, files=None, features=None):
         self.name = name
+        self.features = features            # cargo features assumed when evaluating #[cfg(feature = ..)] (default: {'parallel'})
+        self.groups = {}                    # name -> dict(header=..., pre=<text or contracts/ file>, private=bool)
         self.prelude = prelude      # list of files under contracts/
         self.spec = spec            # list of files under contracts/
         self.items = []
@@ -136,6 +140,13 @@ def _scan_trusted(text, origin):
     return out
 
 
+def _cond(t, features):
+    """feature conditionals in contract text: /*@IF feat*/ A /*@ELSE*/ B /*@END*/"""
+    def rep(m):
+        return m.group(2) if m.group(1) in features else m.group(3)
+    return re.sub(r'/\*@IF ([\w-]+)\*/(.*?)/\*@ELSE\*/(.*?)/\*@END\*/', rep, t, flags=re.S)
+
+
 def _privatise(t):
     """single-module file with private extracted items: spec/prelude text is made private as well"""
     t = re.sub(r'\bpub\s+(open|closed)\s+spec\s+fn', 'spec fn', t)
@@ -144,6 +155,9 @@ def _privatise(t):
 
 
 def generate(unit, repo, vacuity=False):
+    from . import extract as _ex
+    _ex.FEATURES = set(unit.features) if unit.features is not None else {'parallel'}
+    _ex.Source._cache.clear()
     g = Generated()
     chunks = []      # (text, meta)
     header = '#![feature(allocator_api)]\nuse vstd::prelude::*;\n'
@@ -155,6 +169,7 @@ def generate(unit, repo, vacuity=False):
             p, private = p[0], True
         with open(os.path.join(CONTRACTS, p)) as f:
             t = f.read()
+        t = _cond(t, _ex.FEATURES)
         g.trusted += _scan_trusted(t, p)
         if private:
             t = _privatise(t)
@@ -163,7 +178,7 @@ def generate(unit, repo, vacuity=False):
     for p in unit.spec:
         with open(os.path.join(CONTRACTS, p)) as f:
             t = f.read()
-        # single-module file with private extracted items: spec text is made private as well
+        t = _cond(t, _ex.FEATURES)
         t = _privatise(t)
         spec_text += '// ---- spec: %s\n' % p + t + '\n'
         for c in _scan_trusted(t, p):
@@ -176,12 +191,22 @@ def generate(unit, repo, vacuity=False):
         try:
             item = find_item(repo, spec.file, spec.path, spec.nth)
         except LostAnchor as e:
+            if getattr(spec, 'optional', False) and 'not found' in str(e):
+                # absent optional item: its obligations are registered and hold vacuously
+                k0 = spec.key or 'optional'
+                for c in spec.ensures:
+                    g.obligations['%s::%s::ens.%s' % (unit.name, k0, c.label)] = dict(props=c.props or spec.props, fn=k0, kind='postcondition (item absent: default applies)', expr=c.expr)
+                for c in spec.hint_obligations:
+                    g.obligations['%s::%s::hint.%s' % (unit.name, k0, c.label)] = dict(props=c.props or spec.props, fn=k0, kind='inherited postcondition (item absent: default applies)', expr=c.expr)
+                g.obligations['%s::%s::safety' % (unit.name, k0)] = dict(props=spec.props, fn=k0, kind='body safety (item absent)', expr='n/a')
+                continue
             g.lost.append(str(e))
             continue
         key = _auto_key(item, spec)
         norms = []
         text = item.text
         text, r = A.n1_strip(text); norms += r
+        text, r = A.n1_cfg(text, _ex._eval_cfg); norms += r
         text, r = A.n2_vis(text); norms += r
         lost_hints = []
         if spec.kind == 'struct':
@@ -232,6 +257,8 @@ def generate(unit, repo, vacuity=False):
             if spec.free:
                 text = re.sub(r'\bfn\s+\w+', 'fn ' + spec.free, text, count=1)
                 out = '/*@FN:%s*/\n%s%s\n' % (key, (spec.attr + '\n') if spec.attr else '', text)
+            elif spec.group:
+                out = '/*@FN:%s*/\n%s    %s\n' % (key, ('    ' + spec.attr + '\n') if spec.attr else '', text)
             elif item.parent is not None:
                 ih = spec.impl_header
                 if ih is None:
@@ -259,13 +286,42 @@ def generate(unit, repo, vacuity=False):
                 props=spec.safety_props.split() if spec.safety_props else fprops, fn=key, kind='body safety',
                 expr='callee preconditions, asserts/expect/unwrap (panic freedom), index bounds, arithmetic overflow, termination')
         body.append((out, dict(key=key, kind=spec.kind, file=spec.file, path=spec.path, lines=item.lines,
-                               sha256=item.sha256, norms=norms, lost_hints=lost_hints)))
+                               sha256=item.sha256, norms=norms, lost_hints=lost_hints, group=getattr(spec, 'group', None))))
         if lost_hints:
             g.lost.append('%s: hint anchors lost: %s' % (key, lost_hints))
 
     full = header + 'use std::ops::{Deref, DerefMut};\nuse std::marker::PhantomData;\nverus! {\n' + pre_text + spec_text + '// ---- extracted from %s\n' % repo
     line = full.count('\n') + 1
+    # group blocks: members are emitted together, at the position of the first member
+    grouped = []
+    seen_groups = {}
     for (out, meta) in body:
+        gname = meta.get('group')
+        if gname:
+            if gname not in seen_groups:
+                gd = unit.groups[gname]
+                pre = gd.get('pre', '')
+                if pre.endswith('.rs'):
+                    with open(os.path.join(CONTRACTS, pre)) as f:
+                        pre = f.read()
+                pre = _cond(pre, _ex.FEATURES)
+                if gd.get('private', True):
+                    pre = _privatise(pre)
+                seen_groups[gname] = len(grouped)
+                grouped.append([('%s {\n%s\n' % (gd['header'], pre), None)])
+            grouped[seen_groups[gname]].append((out, meta))
+        else:
+            grouped.append([(out, meta)])
+    flat = []
+    for grp in grouped:
+        flat += grp
+        if grp[0][1] is None:
+            flat.append(('}\n', None))
+    for (out, meta) in flat:
+        if meta is None:
+            full += out
+            line += out.count('\n')
+            continue
         n = out.count('\n')
         meta['gen_lines'] = (line, line + n)
         g.fn_ranges.append((line, line + n, meta['key']))
